@@ -383,7 +383,7 @@ func TestVerifC27(t *testing.T) {
 					changeID++
 					chs[k].id = changeID
 					byKey[chs[k].key()] = append(byKey[chs[k].key()], chs[k])
-					toks = append(toks, fmt.Sprintf("%s#%d", chs[k].table, changeID))
+					toks = append(toks, fmt.Sprintf("%s#%d#%s", chs[k].table, changeID, chs[k].op[:1]))
 				}
 				kind := "ok"
 				if s.kind == "read" || (!tx && !failed && len(chs) == 0 && shadowCommits == commitsBefore) {
@@ -453,7 +453,7 @@ func TestVerifC27(t *testing.T) {
 					chg := cands[used[key]]
 					used[key]++
 					hasVals := ev.OldRow != nil || ev.NewRow != nil
-					tok := fmt.Sprintf("%s#%d", chg.table, chg.id)
+					tok := fmt.Sprintf("%s#%d#%s", chg.table, chg.id, chg.op[:1])
 					if hasVals {
 						tok += "v"
 					}
@@ -492,12 +492,12 @@ func TestVerifC27(t *testing.T) {
 			var want []string
 			for _, chg := range committed {
 				if matches(chg.table) {
-					want = append(want, fmt.Sprintf("%s#%d", chg.table, chg.id))
+					want = append(want, fmt.Sprintf("%s#%d#%s", chg.table, chg.id, chg.op[:1]))
 				}
 			}
 			var got []string
 			for _, chg := range delivered {
-				got = append(got, fmt.Sprintf("%s#%d", chg.table, chg.id))
+				got = append(got, fmt.Sprintf("%s#%d#%s", chg.table, chg.id, chg.op[:1]))
 			}
 			if strings.Join(got, ",") != strings.Join(want, ",") {
 				sig := "events-differ-from-committed-changes"
